@@ -145,7 +145,13 @@ func (g *Generator) AdjustEnv(env []*nri.KeyValue) {
 	mod := map[string]*nri.KeyValue{}
 
 	for _, e := range env {
-		key, _ := nri.IsMarkedForRemoval(e.Key)
+		key, marked := nri.IsMarkedForRemoval(e.Key)
+		if m, ok := mod[key]; ok && marked {
+			if _, removal := m.IsMarkedForRemoval(); !removal {
+				// setting a variable wins over removing it, in any order
+				continue
+			}
+		}
 		mod[key] = e
 	}
 
@@ -347,12 +353,18 @@ func (g *Generator) AdjustOomScoreAdj(score *nri.OptionalInt) {
 
 // AdjustDevices adjusts the (Linux) devices in the OCI Spec.
 func (g *Generator) AdjustDevices(devices []*nri.LinuxDevice) {
+	// apply removals first: setting a device wins over removing it, in any order
+	for _, d := range devices {
+		if key, marked := d.IsMarkedForRemoval(); marked {
+			g.RemoveDevice(key)
+		}
+	}
 	for _, d := range devices {
 		key, marked := d.IsMarkedForRemoval()
-		g.RemoveDevice(key)
 		if marked {
 			continue
 		}
+		g.RemoveDevice(key)
 		g.AddDevice(d.ToOCI())
 		major, minor, access := &d.Major, &d.Minor, d.AccessString()
 		g.AddLinuxResourcesDevice(true, d.Type, major, minor, access)
@@ -396,10 +408,16 @@ func (g *Generator) AdjustMounts(mounts []*nri.Mount) error {
 		return nil
 	}
 
-	propagation := ""
+	// apply removals first: setting a mount wins over removing it, in any order
 	for _, m := range mounts {
 		if destination, marked := m.IsMarkedForRemoval(); marked {
 			g.RemoveMount(destination)
+		}
+	}
+
+	propagation := ""
+	for _, m := range mounts {
+		if _, marked := m.IsMarkedForRemoval(); marked {
 			continue
 		}
 
